@@ -22,6 +22,7 @@ struct ThrSim {
 	uint64_t yield_points = 0, switches = 0, accesses = 0, shared_accesses = 0, func_entries = 0;
 	uint64_t schedule_hash = 1469598103934665603ULL;
 	std::vector<RaceReport> races;
+	std::vector<std::pair<int, uint32_t>> trace;      // first hand-overs: (thread that receives the baton, code offset in the library where the giver was pre-empted)
 	uint64_t rand_draws_by[8] = {0}, time_calls_by[8] = {0};
 	// probes
 	uint64_t in_html_export_overlap = 0, in_zip_overlap = 0, preempt_in_ran_array = 0;
